@@ -307,3 +307,21 @@ M('c16-exact-no-eof', 'C16', BDF, "    _expect_eof(stream)\n    return data", " 
 M('c16-exact-short-read', 'C16', BDF, "    if len(arr) != length:\n        raise BinaryDictIOError(\"Unexpected EOF\")\n    return arr", "    return arr", 'C16.EXACT')
 M('c16-outputs-order', 'C16', ENCF, "    for label in circuit.outputs:\n        bit_writer.write_number(gate_identifiers[label], word_size)", "    for label in sorted(circuit.outputs):\n        bit_writer.write_number(gate_identifiers[label], word_size)", 'C16.MIRROR')
 M('c16-twin-topsort', 'C16', ENCF, "    in_progress: tp.Set[Label] = set()\n    for gate_label in circuit.gates:\n        stack = [gate_label]", "    for _g in circuit.top_sort(inverse=True):\n        if _g.label not in result:\n            result[_g.label] = len(result)\n    in_progress: tp.Set[Label] = set()\n    for gate_label in circuit.gates:\n        stack = [gate_label]", None)
+
+# ---------------------------------------------------------------- C17
+NRM = 'cirbo/circuits_db/normalization.py'
+DBF = 'cirbo/circuits_db/db.py'
+M('c17-mirror-swap', 'C17', NRM, "        self._undo_outputs_deletion(circuit)\n        self._unsort_outputs(circuit)", "        self._unsort_outputs(circuit)\n        self._undo_outputs_deletion(circuit)", 'C17')
+M('c17-flag-inverted', 'C17', NRM, "            if tt[0]:\n                negations.append(True)", "            if tt[0]:\n                negations.append(False)", 'C17.NORM')
+M('c17-negate-last', 'C17', NRM, "            if tt[0]:", "            if tt[-1]:", 'C17.NORM')
+M('c17-unsort-inverse', 'C17', NRM, "            unsorted_outputs[sorted_index] = circuit.outputs[original_index]", "            unsorted_outputs[original_index] = circuit.outputs[sorted_index]", 'C17.NORM')
+M('c17-mapping-off', 'C17', NRM, "            mapping.append(len(new_truth_table) - 1)", "            mapping.append(len(new_truth_table))", 'C17.NORM')
+M('c17-dedupe-first', 'C17', NRM, "            if truth_table[i] != truth_table[i - 1]:", "            if truth_table[i] != truth_table[0]:", 'C17.NORM')
+M('c17-denorm-no-not', 'C17', NRM, "            if negation:\n                output_not = _negate_gate(circuit, output)\n                new_outputs.append(output_not)", "            if negation:\n                new_outputs.append(output)", 'C17.NORM')
+M('c17-min-gt', 'C17', DBF, "            if result_size is None or circuit_size < result_size:", "            if result_size is None or circuit_size > result_size:", 'C17.MIN')
+M('c17-min-first', 'C17', DBF, "            if result_size is None or circuit_size < result_size:", "            if result_size is None:", 'C17.MIN')
+M('c17-min-dc-true', 'C17', DBF, "            for i, val in enumerate(substitution):\n                j, k = undefined_positions[i]\n                defined_truth_table[j][k] = val", "            for i, val in enumerate(substitution):\n                j, k = undefined_positions[i]\n                defined_truth_table[k % len(defined_truth_table)][k] = val", 'C17.MIN')
+M('c17-min-none-stops', 'C17', DBF, "            if circuit is None:\n                continue", "            if circuit is None:\n                break", 'C17.MIN')
+M('c17-key-unnormalised', 'C17', DBF, "        normalized_truth_table = normalization.truth_table\n        label = _truth_table_to_label(normalized_truth_table)\n        circuit = self.get_by_label(label)", "        normalized_truth_table = normalization.truth_table\n        label = _truth_table_to_label(truth_table)\n        circuit = self.get_by_label(label)", 'C17.KEY')
+M('c17-key-join', 'C17', DBF, "    return '_'.join(str_truth_tables)", "    return ''.join(str_truth_tables)", 'C17.KEY')
+M('c17-twin-rename', 'C17', NRM, "        for i, mapped_index in enumerate(self.mapping):\n            original_outputs[i] = circuit.outputs[mapped_index]", "        for pos, src_idx in enumerate(self.mapping):\n            original_outputs[pos] = circuit.outputs[src_idx]", None)
